@@ -93,8 +93,105 @@ def crs_text(cfg, evs):
     return lines + ["end"]
 
 
-MODELS = {"NLOPT_GN_ESCH": ("esch", esch_text), "NLOPT_GN_ISRES": ("isres", isres_text), "NLOPT_GN_CRS2_LM": ("crs", crs_text)}
+def nm_text(cfg, evs):
+    lines = ["cfg n=%s maxeval=%s stopval=%s ftol_rel=%s ftol_abs=%s xtol_rel=%s xtol_abs=%s xw=%s x0=%s" % (
+        cfg["n"], cfg["maxeval"], cfg["stopval"], cfg["ftol_rel"], cfg["ftol_abs"], cfg["xtol_rel"], cfg["xtol_abs"] or "-",
+        cfg["xw"] or "-", cfg["x"] or "-")]
+    lines += ["ev %s %s %d" % (_vec(e["x"]), e["f"], 1 if e["stop"] else 0) for e in evs]
+    # two answers: all proposals regular / the proposal after the last evaluation degenerate (reflectpt returned 0: not modelled arithmetic)
+    return lines + ["end", "end 1"]
+
+
+def nm_judge(outs, want, res, nev):
+    if outs[0] == want:
+        return True, outs[0]
+    f = outs[0].split(" ")
+    if len(f) == 5 and f[4] == "1" and f[1] == str(nev) and res["ret"] in (4, -1) and outs[1] == want:
+        return True, outs[1]
+    return False, outs[0]
+
+
+AUGLAG = ("NLOPT_AUGLAG", "NLOPT_AUGLAG_EQ", "NLOPT_LN_AUGLAG", "NLOPT_LD_AUGLAG", "NLOPT_LN_AUGLAG_EQ", "NLOPT_LD_AUGLAG_EQ")
+
+
+def auglag_build(ri):
+    """segments an AUGLAG run into the outer loop's own evaluations and the subsidiary runs (N 10 / N 11 markers at depth 2).
+    returns (lines, want line, number of events) or None"""
+    r = ri.run
+    iv = inner_view(ri)
+    if iv is None:
+        return None
+    cfg, _, res = iv
+    if int(cfg["n"]) == 0:
+        return None
+    fixed = [i for i, (a, b) in enumerate(zip(ri.lb, ri.ub)) if a == b] if int(cfg["n"]) != ri.n else []
+    stopat = int(ri.sp["stopat"]) if "stopat" in ri.sp else None
+    marks = [(k, at, d) for (k, at, d) in r.nest if d.get("d") == "2"]
+    segs, open_at = [], None
+    for k, at, d in marks:
+        if k == 10:
+            open_at = (at, d)
+        elif k == 11 and open_at is not None:
+            segs.append((open_at[0], at, open_at[1], d))
+            open_at = None
+    if open_at is not None:
+        return None                                     # a subsidiary run that never returned (crash / hang): not replayable
+    eq_variant = ri.name.endswith("_EQ")
+    lines = ["cfg n=%s maxeval=%s stopval=%s ftol_rel=%s ftol_abs=%s xtol_rel=%s xtol_abs=%s xw=%s x0=%s htol=%s gtol=%s" % (
+        cfg["n"], cfg["maxeval"], cfg["stopval"], cfg["ftol_rel"], cfg["ftol_abs"], cfg["xtol_rel"], cfg["xtol_abs"] or "-",
+        cfg["xw"] or "-", cfg["x"] or "-", _tols(cfg["h"]), "-" if eq_variant else _tols(cfg["fc"]))]
+    nev, pos, calls = 0, 0, r.calls
+
+    def own(a, b):
+        """own evaluations in calls[a:b]: objective call followed by its constraint calls"""
+        out, cur = [], None
+        for idx in range(a, b):
+            c = calls[idx]
+            xin = [h for i, h in enumerate(c.x.split(",")) if i not in fixed]
+            if c.kind == "f":
+                cur = {"x": xin, "f": neg(c.val) if ri.maximize else c.val, "stop": 0, "h": [], "g": [], "n": 0}
+                out.append(cur)
+            elif cur is None:
+                return None
+            else:
+                cur["n"] += 1
+                cur["h" if c.role == 2 else "g"].append(c.val)
+            if stopat is not None and idx + 1 == stopat and cur is not None:
+                cur["stop"] = 1 + cur["n"]
+        return out
+
+    budgets = []
+    for a, b, d10, d11 in segs + [(len(calls), len(calls), None, None)]:
+        evs = own(pos, a)
+        if evs is None:
+            return None
+        for e in evs:
+            lines.append("eval %s %s %d %s %s" % (_vec(e["x"]), e["f"], e["stop"], ";".join(e["h"]) or "-", ";".join(e["g"]) or "-"))
+            nev += 1
+        if d10 is not None:
+            used = sum(1 for c in calls[a:b] if c.kind == "f")
+            forced = 1 if (stopat is not None and a < stopat <= b) else 0
+            lines.append("sub %s %s %s %d %d" % (d11["ret"], d11["x"] or "-", d11["minf"], used, forced))
+            budgets.append(d10["maxeval"])
+            nev += 1
+        pos = b
+    lines += ["end", "budgets"]
+    total = sum(1 for c in calls if c.kind == "f")
+    want = "%d %d %s %s 0 0" % (res["ret"], total, res["x"] or "-", res["minf"])
+    local_me = ri.sp.get("local", "0:0").split(":")[1] if "local" in ri.sp else "0"
+    return lines, want, nev, (",".join(budgets) or "-") if local_me in ("0", "-1") else None
+
+
+MODELS = {"NLOPT_GN_ESCH": ("esch", esch_text, 1, None), "NLOPT_GN_ISRES": ("isres", isres_text, 1, None),
+          "NLOPT_GN_CRS2_LM": ("crs", crs_text, 1, None), "NLOPT_LN_NELDERMEAD": ("nm", nm_text, 2, nm_judge)}
 POSINF = "7ff0000000000000"
+
+
+def _canon(l):
+    f = l.split(" ")
+    if len(f) >= 5 and f[3] == "-":
+        f[3] = POSINF
+    return " ".join(f)
 
 
 def correspond(ctx, batch, label):
@@ -102,38 +199,61 @@ def correspond(ctx, batch, label):
     made, must return exactly where the driver returned, with the same code, x and minf"""
     by_stream = {}
     for _, r, ri in batch:
-        if not usable(ri) or ri.name not in MODELS:
+        if not usable(ri):
+            continue
+        if ri.name in AUGLAG:
+            try:
+                b = auglag_build(ri)
+            except Exception:
+                b = None
+            if b is None or b[2] == 0:
+                continue            # no event at all: a set-up call on the subsidiary object failed before the loop (not modelled)
+            lines, want, nev, budgets = b
+            by_stream.setdefault("auglag", []).append((r, ri, lines, nev, {"ret": ri.run.e11["ret"]}, want, 2, budgets))
+            continue
+        if ri.name not in MODELS:
             continue
         iv = inner_view(ri)
         if iv is None or not iv[1]:
             continue
-        stream, mk = MODELS[ri.name]
+        stream, mk, nout, judge = MODELS[ri.name]
         cfg, evs, res = iv
         if int(cfg["n"]) == 0 or any(len(e["x"]) != int(cfg["n"]) for e in evs):
             continue            # n = 0 after elimination: nlopt_optimize_ answers itself, no driver runs
-        by_stream.setdefault(stream, []).append((r, ri, mk(cfg, evs), len(evs), res))
+        want = "%d %d %s %s 0" % (res["ret"], len(evs), res["x"] or "-", res["minf"])
+        by_stream.setdefault(stream, []).append((r, ri, mk(cfg, evs), len(evs), res, want, nout, judge))
     for stream, todo in by_stream.items():
         text = "\n".join(l for t in todo for l in t[2]) + "\n"
+        import time
+        t0 = time.time()
         try:
             out = [l for l in run_model(stream, text, timeout=1200) if l.strip()]
         except Exception as e:
             ctx.broke("driver model %s: executable" % stream, repr(e))
             continue
-        st = ctx.corr.setdefault("driver model " + stream, {"runs_replayed": 0, "evaluations_replayed": 0, "disagreements": 0, "return_codes": {}})
-        if len(out) != len(todo):
-            import os
-            dbg = "/var/tmp/drv_debug_%s.txt" % stream
-            open(dbg, "w").write(text)
+        st = ctx.corr.setdefault("driver model " + stream, {"runs_replayed": 0, "events_replayed": 0, "disagreements": 0, "return_codes": {}})
+        st["model_seconds"] = round(st.get("model_seconds", 0) + time.time() - t0, 1)
+        if len(out) != sum(t[6] for t in todo):
             ctx.broke("correspondence driver model %s (%s): output" % (stream, label), "%d result lines for %d runs: %s" % (len(out), len(todo), out[:2]))
             continue
-        for (r, ri, _, nev, res), l in zip(todo, out):
+        k = 0
+        for (r, ri, _, nev, res, want, nout, judge) in todo:
+            outs = [_canon(l) for l in out[k:k + nout]]
+            k += nout
             st["runs_replayed"] += 1
-            st["evaluations_replayed"] += nev
+            st["events_replayed"] += nev
             st["return_codes"][str(res["ret"])] = st["return_codes"].get(str(res["ret"]), 0) + 1
-            f = l.split(" ")
-            want = "%d %d %s %s 0" % (res["ret"], nev, res["x"] or "-", res["minf"])
-            got = "%s %s %s %s %s" % (f[0], f[1], f[2], POSINF if f[3] == "-" else f[3], f[4]) if len(f) == 5 else l
-            if got != want:
+            if stream == "auglag":
+                ok, got = outs[0] == want, outs[0]
+                if ok and judge is not None and outs[1] != judge:
+                    ok, got = False, "budgets handed to the subsidiary runs: model %s, implementation %s" % (outs[1], judge)
+                if judge is not None:
+                    st["budget_lists_compared"] = st.get("budget_lists_compared", 0) + 1
+            elif judge is not None:
+                ok, got = judge(outs, want, res, nev)
+            else:
+                ok, got = outs[0] == want, outs[0]
+            if not ok:
                 st["disagreements"] += 1
                 if st["disagreements"] == 1:
                     ctx.broke("correspondence driver model %s (%s): model vs implementation" % (stream, label),
